@@ -432,5 +432,21 @@ pub fn main(args: &[String]) {
         .map(|(i, c)| EnumCase { name: format!("Or{}", util::letters(i)), vars: c.vars.clone() })
         .collect();
     oracles(&sample, &mut rep);
+    // values travelling through memory: a struct field / option payload of enum type, written by rustc and read by
+    // the generated JS (and the other way round), with negative and large discriminants
+    {
+        use crate::c08::{Case, F};
+        let mut cases = vec![];
+        for discs in [(-40, 35), (-1, 0), (i32::MIN, i32::MAX), (7, 8)] {
+            cases.push(Case { structs: vec![vec![F::Enum, F::Prim("u8", 1, 1)]], discs, out: false });
+            cases.push(Case { structs: vec![vec![F::Prim("u8", 1, 1), F::Enum, F::Enum]], discs, out: true });
+            cases.push(Case { structs: vec![vec![F::Opt(Box::new(F::Enum)), F::Prim("i16", 2, 2), F::Enum]], discs, out: false });
+        }
+        let refs: Vec<&Case> = cases.iter().collect();
+        for salt in 0..3u64 {
+            crate::jsexec::run(&refs, a.seed.wrapping_mul(31).wrapping_add(salt), false, &mut rep);
+        }
+        crate::jsexec::run(&refs, a.seed, true, &mut rep);
+    }
     rep.print();
 }
